@@ -186,9 +186,9 @@ Lemma dispatch_shape cf st c m st' o :
   (exists r, resolve st (m_dest m) = Some r /\ o = fwd_out cf st c r m) \/ (exists e, o = [(c, OErr e (m_serial m))]).
 Proof.
   unfold dispatch. destruct (resolve st (m_dest m)) as [r|]; [|intros H; inversion H; right; eauto].
+  destruct ((0 <? m_nfds m) && negb (conn_fds st r)); [intros H; inversion H; right; eauto|].
   destruct (check_security_policy cf (st_now st) (st_pend st) c r m) as [pl res].
-  destruct res as [e|]; [intros H; inversion H; right; eauto|].
-  destruct ((0 <? m_nfds m) && negb (conn_fds st r)); intros H; inversion H; [right|left]; eauto.
+  destruct res as [e|]; intros H; inversion H; [right|left]; eauto.
 Qed.
 
 Lemma dispatch_frame cf st c m st' o :
@@ -196,9 +196,9 @@ Lemma dispatch_frame cf st c m st' o :
   st_conns st' = st_conns st /\ st_next st' = st_next st /\ st_names st' = st_names st /\ st_now st' = st_now st.
 Proof.
   unfold dispatch. destruct (resolve st (m_dest m)) as [r|]; [|intros H; inversion H; auto].
+  destruct ((0 <? m_nfds m) && negb (conn_fds st r)); [intros H; inversion H; auto|].
   destruct (check_security_policy cf (st_now st) (st_pend st) c r m) as [pl res].
-  destruct res as [e|]; [intros H; inversion H; auto|].
-  destruct ((0 <? m_nfds m) && negb (conn_fds st r)); intros H; inversion H; auto.
+  destruct res as [e|]; intros H; inversion H; auto.
 Qed.
 
 (* C09: a NO_REPLY_EXPECTED message never adds a slot (any state, any policy) *)
@@ -207,6 +207,7 @@ Lemma noreply_opens_nothing cf st c m st' o :
 Proof.
   intros Hn. unfold step. destruct (negb (wf_event st (ESend c m))); [intros H; inversion H; auto|].
   unfold dispatch. destruct (resolve st (m_dest m)) as [r|]; [|intros H; inversion H; auto].
+  destruct ((0 <? m_nfds m) && negb (conn_fds st r)); [intros H; inversion H; auto|].
   destruct (check_security_policy cf (st_now st) (st_pend st) c r m) as [pl res] eqn:C.
   assert (Hs : forall p, In p pl -> In p (st_pend st)).
   { revert C. unfold check_security_policy.
@@ -225,8 +226,7 @@ Proof.
         destruct (negb (can_receive cf m false)); [intros H; inversion H; subst; auto|].
         destruct (m_type m); try solve [intros H; inversion H; subst; auto].
         unfold expect_reply. rewrite Hn. intros H; inversion H; subst; auto. }
-  destruct res as [e|]; [intros H; inversion H; subst; simpl; auto|].
-  destruct ((0 <? m_nfds m) && negb (conn_fds st r)); intros H; inversion H; subst; simpl; auto.
+  destruct res as [e|]; intros H; inversion H; subst; simpl; auto.
 Qed.
 
 (* C09: under the requested-replies-only policy, a message that carries a reply serial and is passed on
@@ -238,9 +238,9 @@ Lemma requested_only_state cf st c m st' o a :
                   (forall q, In q (st_pend st') -> In q (l1 ++ l2) \/ (is_call m = true /\ q = mkPend c (Some a) (m_serial m) (st_now st))).
 Proof.
   intros Hr Hs. unfold dispatch. destruct (resolve st (m_dest m)) as [r|] eqn:Rs; [|intros H; inversion H; subst; simpl; discriminate].
+  destruct ((0 <? m_nfds m) && negb (conn_fds st r)); [intros H; inversion H; subst; simpl; discriminate|].
   destruct (check_security_policy cf (st_now st) (st_pend st) c r m) as [pl res] eqn:C.
-  destruct res as [e|]; [intros H; inversion H; subst; simpl; discriminate|].
-  destruct ((0 <? m_nfds m) && negb (conn_fds st r)); intros H; inversion H; subst; [simpl; discriminate|].
+  destruct res as [e|]; intros H; inversion H; subst; [simpl; discriminate|].
   fold (fwd_out cf st c r m). rewrite fwd_to_single. intros Ha. apply N.eqb_eq in Ha. subst a. split; auto. split; auto.
   revert C. unfold check_security_policy. apply N.eqb_neq in Hs. rewrite Hs.
   destruct (check_reply (st_pend st) c r (m_rserial m)) as [pl1|] eqn:R.
@@ -256,10 +256,11 @@ Qed.
 (* C09: any other reply is refused as access denied, and nothing changes *)
 Lemma unrequested_refused cf st c m r :
   restrictive cf = true -> m_rserial m <> 0 -> resolve st (m_dest m) = Some r ->
+  (0 <? m_nfds m) && negb (conn_fds st r) = false ->
   (forall p, In p (st_pend st) -> pend_match r c (m_rserial m) p = false) ->
   dispatch cf st c m = (st, [(c, OErr EAccessDenied (m_serial m))]).
 Proof.
-  intros Hr Hs Rs Hno. unfold dispatch. rewrite Rs. unfold check_security_policy.
+  intros Hr Hs Rs Hfd Hno. unfold dispatch. rewrite Rs, Hfd. unfold check_security_policy.
   apply N.eqb_neq in Hs. rewrite Hs. apply check_reply_none in Hno. rewrite Hno.
   unfold can_send. rewrite Hr, Hs. simpl. rewrite set_pend_same. reflexivity.
 Qed.
@@ -303,9 +304,10 @@ Proof.
   destruct e as [fds|c m|c|d|c s n al rp dq|c s n|c s rl]; simpl.
   - apply Hl.
   - unfold dispatch. destruct (resolve st (m_dest m)) as [r|]; [|apply Hl].
+    destruct ((0 <? m_nfds m) && negb (conn_fds st r)); [apply Hl|].
     destruct (check_security_policy cf (st_now st) (st_pend st) c r m) as [pl res] eqn:C.
     pose proof (csp_count _ _ _ _ _ _ _ _ a Hl C).
-    destruct res; [auto|]. destruct ((0 <? m_nfds m) && negb (conn_fds st r)); auto.
+    destruct res; auto.
   - unfold disconnect. rewrite expire_pass_spec. simpl.
     pose proof (filter_count_le a (fun p => negb (expired cf (st_now st) p)) (drop_pending (st_pend st) c)).
     pose proof (drop_pending_count a (st_pend st) c). specialize (Hl a). lia.
@@ -481,9 +483,9 @@ Inductive send_case (cf : cfg) (st : state) (c : N) (m : msg) (st' : state) (o :
 
 Lemma send_cases cf st c m st' o : plain_msg m = true -> dispatch cf st c m = (st', o) -> send_case cf st c m st' o.
 Proof.
-  unfold plain_msg. rewrite andb_true_iff, N.eqb_eq. intros [Hf Hp]. unfold dispatch.
+  unfold plain_msg. intros Hp. unfold dispatch.
   destruct (resolve st (m_dest m)) as [r|] eqn:Rs; [|intros H; inversion H; subst; apply SC_refused; auto].
-  rewrite Hf. simpl.
+  destruct ((0 <? m_nfds m) && negb (conn_fds st r)); [intros H; inversion H; subst; apply SC_refused; auto|].
   destruct (check_security_policy cf (st_now st) (st_pend st) c r m) as [pl res] eqn:C. revert C. unfold check_security_policy.
   destruct (m_rserial m =? 0) eqn:R0.
   - apply N.eqb_eq in R0.
@@ -863,10 +865,11 @@ Qed.
 (* C09: any other reply is refused as access denied and changes nothing *)
 Theorem unrequested_denied cf h c m r :
   restrictive cf = true -> plain h = true -> wf_event (state_of cf h) (ESend c m) = true -> m_rserial m <> 0 ->
-  resolve (state_of cf h) (m_dest m) = Some r -> age (reply_timeout cf) (trace_of cf h) r c (m_rserial m) = None ->
+  resolve (state_of cf h) (m_dest m) = Some r -> (0 <? m_nfds m) && negb (conn_fds (state_of cf h) r) = false ->
+  age (reply_timeout cf) (trace_of cf h) r c (m_rserial m) = None ->
   step cf (state_of cf h) (ESend c m) = (state_of cf h, [(c, OErr EAccessDenied (m_serial m))]).
 Proof.
-  intros Hr Hp W Hs Rs A. rewrite step_send; auto. apply unrequested_refused with (r := r); auto.
+  intros Hr Hp W Hs Rs Hfd A. rewrite step_send; auto. apply unrequested_refused with (r := r); auto.
   intros p Hin. destruct (pend_match r c (m_rserial m) p) eqn:M; auto. exfalso.
   destruct (ledger_invariant cf h Hp) as [[I1 I2 I3 I4 I5] _].
   apply pend_match_iff in M. destruct M as (M1 & M2 & M3). destruct (I2 p c Hin M3) as [_ A']. rewrite M1, M2 in A'. congruence.
@@ -896,7 +899,7 @@ Proof.
     apply in_rev in Hin. unfold plain in Hp'. rewrite forallb_forall in Hp'. specialize (Hp' _ Hin).
     destruct e1 as [|c1 m1| | | | |]; try discriminate. simpl in A1, Hp' |- *.
     rewrite !andb_true_iff, !N.eqb_eq, negb_true_iff, N.eqb_neq in A1. destruct A1 as [[[_ R] Z] _].
-    unfold plain_msg in Hp'. apply andb_true_iff in Hp'. destruct Hp' as [_ Hc].
+    unfold plain_msg in Hp'. pose proof Hp' as Hc.
     destruct (is_call m1); [|rewrite andb_false_r; auto]. simpl in Hc. apply N.eqb_eq in Hc. congruence. }
   destruct (opened_in tr2 a b s) eqn:O; auto. exfalso.
   destruct e2 as [|c2 m2| | | | |]; try discriminate. simpl in A2.
@@ -923,11 +926,12 @@ Qed.
 
 Theorem limit_refuses cf st c m r :
   wf_event st (ESend c m) = true -> is_call m = true -> m_noreply m = false -> m_rserial m = 0 ->
-  resolve st (m_dest m) = Some r -> max_replies cf <= count_get c (st_pend st) ->
+  resolve st (m_dest m) = Some r -> (0 <? m_nfds m) && negb (conn_fds st r) = false ->
+  max_replies cf <= count_get c (st_pend st) ->
   (forall p, In p (st_pend st) -> pend_match c r (m_serial m) p = false) ->
   step cf st (ESend c m) = (st, [(c, OErr ELimitsExceeded (m_serial m))]).
 Proof.
-  intros W Hc Hn Hr Rs Hl Hno. rewrite step_send; auto. unfold dispatch. rewrite Rs. unfold check_security_policy.
+  intros W Hc Hn Hr Rs Hfd Hl Hno. rewrite step_send; auto. unfold dispatch. rewrite Rs, Hfd. unfold check_security_policy.
   assert (Hcs : forall rq, can_send cf m rq = true) by (intros rq; unfold can_send; rewrite Hr; destruct (restrictive cf); auto).
   assert (Hcr : forall rq, can_receive cf m rq = true) by (intros rq; unfold can_receive; rewrite Hr; destruct (restrictive cf); auto).
   rewrite Hr. cbn [N.eqb]. rewrite Hcs, Hcr. cbn [negb].
@@ -1040,11 +1044,10 @@ Qed.
 Lemma dispatch_no_noreply cf st c m a s : count_noreply (snd (dispatch cf st c m)) a s = 0%nat.
 Proof.
   unfold dispatch. destruct (resolve st (m_dest m)) as [r|].
-  - destruct (check_security_policy cf (st_now st) (st_pend st) c r m) as [pl [e|]] eqn:C.
+  - destruct ((0 <? m_nfds m) && negb (conn_fds st r)); [unfold count_noreply, nr_is; simpl; destruct (c =? a); reflexivity|].
+    destruct (check_security_policy cf (st_now st) (st_pend st) c r m) as [pl [e|]] eqn:C.
     + destruct (csp_error_kinds _ _ _ _ _ _ _ _ C) as [->| ->]; unfold count_noreply, nr_is; simpl; destruct (c =? a); reflexivity.
-    + destruct ((0 <? m_nfds m) && negb (conn_fds st r)); cbn [snd].
-      * unfold count_noreply, nr_is; simpl; destruct (c =? a); reflexivity.
-      * apply count_noreply_fwd_out.
+    + cbn [snd]. apply count_noreply_fwd_out.
   - unfold count_noreply, nr_is. simpl. destruct (m_noauto m); destruct (c =? a); reflexivity.
 Qed.
 
@@ -1232,31 +1235,59 @@ Proof.
   rewrite E. apply filter_eav. intros x Hx. unfold err_is. rewrite Hx. apply andb_false_r.
 Qed.
 
+Lemma count_gs_app a s l1 l2 : count_gs a s (l1 ++ l2) = (count_gs a s l1 + count_gs a s l2)%nat.
+Proof. unfold count_gs. rewrite filter_app, app_length. reflexivity. Qed.
+
+Lemma csp_gs cf now pl c r m pl' res a s :
+  check_security_policy cf now pl c r m = (pl', res) ->
+  (count_gs a s pl' <= count_gs a s pl +
+     match res with None => if (c =? a) && (m_serial m =? s) then 1 else 0 | Some _ => 0 end)%nat.
+Proof.
+  unfold check_security_policy.
+  assert (G : forall pl1 rq, (count_gs a s pl1 <= count_gs a s pl)%nat ->
+     (if negb (can_send cf m rq) then (pl1, Some EAccessDenied)
+      else if negb (can_receive cf m rq) then (pl1, Some EAccessDenied)
+      else match m_type m with TCall => expect_reply cf now pl1 c r m | _ => (pl1, None) end) = (pl', res) ->
+     (count_gs a s pl' <= count_gs a s pl +
+        match res with None => if (c =? a) && (m_serial m =? s) then 1 else 0 | Some _ => 0 end)%nat).
+  { intros pl1 rq H1. destruct (negb (can_send cf m rq)); [intros H; inversion H; subst; lia|].
+    destruct (negb (can_receive cf m rq)); [intros H; inversion H; subst; lia|].
+    destruct (m_type m); try solve [intros H; inversion H; subst; destruct ((c =? a) && (m_serial m =? s)); lia].
+    intros C. destruct (expect_reply_cases _ _ _ _ _ _ _ _ C) as [(_ & -> & ->)|[(_ & -> & -> & _)|[(_ & -> & -> & _)|(_ & -> & -> & _)]]];
+      try (destruct ((c =? a) && (m_serial m =? s)); lia).
+    unfold count_gs in *. cbn [filter]. unfold gs at 1. cbn [p_get p_serial].
+    destruct ((c =? a) && (m_serial m =? s)); cbn [length]; lia. }
+  destruct (m_rserial m =? 0); [apply G; lia|].
+  destruct (check_reply pl c r (m_rserial m)) as [pl1|] eqn:R; [|apply G; lia].
+  apply G. destruct (check_reply_some _ _ _ _ _ R) as (l1 & p & l2 & -> & -> & _).
+  rewrite !count_gs_app. unfold count_gs at 4. cbn [filter]. destruct (gs a s p); cbn [length]; unfold count_gs; lia.
+Qed.
+
+(* every message: errors produced + slots afterwards <= slots before + 1 if this is a's message with serial s *)
 Lemma errors_step cf st e a s :
-  plain_event e = true ->
   (length (filter (err_is a s) (snd (step cf st e))) + count_gs a s (st_pend (fst (step cf st e)))
    <= count_gs a s (st_pend st) + (if is_send_as a s e then 1 else 0))%nat.
 Proof.
-  intros Hp. unfold step. destruct (negb (wf_event st e)); [simpl; lia|].
+  unfold step. destruct (negb (wf_event st e)); [simpl; lia|].
   destruct e as [fds|c m|c|d|c sr n al rp dq|c sr n|c sr rl]; cbn [is_send_as].
   - simpl. lia.
-  - destruct (dispatch cf st c m) as [st' o] eqn:D. cbn [fst snd].
-    destruct (send_cases _ _ _ _ _ _ Hp D) as [Hpe Hf | r Ho Hpe _ _ | r _ Ho _ _ _ Hpe _ _ | r l1 p l2 Ho _ _ Hps _ Hpe].
-    + rewrite Hpe. destruct (dispatch_shape _ _ _ _ _ _ D) as [(r & _ & ->)|(er & ->)].
-      * specialize (Hf r). rewrite fwd_to_single, N.eqb_refl in Hf. discriminate.
-      * simpl. unfold err_is. cbn [fst snd]. destruct ((c =? a) && (m_serial m =? s)); simpl; lia.
-    + rewrite Hpe, Ho, err_fwd_out. simpl. lia.
-    + rewrite Hpe, Ho, err_fwd_out. unfold count_gs. cbn [filter]. unfold gs at 1. cbn [p_get p_serial].
-      destruct ((c =? a) && (m_serial m =? s)); simpl; lia.
-    + rewrite Hpe, Hps, Ho, err_fwd_out. unfold count_gs. rewrite !filter_app, !app_length. cbn [filter].
-      destruct (gs a s p); simpl; lia.
+  - assert (E1 : forall x, length (filter (err_is a s) [(c, OErr x (m_serial m))]) = if (c =? a) && (m_serial m =? s) then 1%nat else 0%nat).
+    { intros x. cbn [filter]. unfold err_is. cbn [fst snd]. destruct ((c =? a) && (m_serial m =? s)); reflexivity. }
+    unfold dispatch. destruct (resolve st (m_dest m)) as [r|]; [|cbn [fst snd]; rewrite E1; lia].
+    destruct ((0 <? m_nfds m) && negb (conn_fds st r)); [cbn [fst snd]; rewrite E1; lia|].
+    destruct (check_security_policy cf (st_now st) (st_pend st) c r m) as [pl res] eqn:C.
+    pose proof (csp_gs _ _ _ _ _ _ _ _ a s C) as G.
+    destruct res as [x|]; cbn [fst snd set_pend st_pend].
+    + rewrite E1. destruct ((c =? a) && (m_serial m =? s)); lia.
+    + fold (fwd_out cf st c r m). rewrite err_fwd_out. simpl. lia.
   - unfold disconnect. rewrite expire_pass_spec. cbn [fst snd st_pend].
     pose proof (expire_partition a s (expired cf (st_now st)) (drop_pending (st_pend st) c)).
     pose proof (count_gs_drop a s (st_pend st) c). lia.
   - unfold tick. rewrite expire_pass_spec. cbn [fst snd st_pend].
     pose proof (expire_partition a s (expired cf (st_now st + d)) (st_pend st)). lia.
   - destruct (acquire _ c al rp dq). simpl. unfold err_is. cbn [fst snd]. rewrite andb_false_r. simpl. lia.
-  - destruct (release (st_names st) c n). simpl. unfold err_is. cbn [fst snd]. rewrite andb_false_r. simpl. lia.  - simpl. unfold err_is. cbn [fst snd]. rewrite andb_false_r. simpl. lia.
+  - destruct (release (st_names st) c n). simpl. unfold err_is. cbn [fst snd]. rewrite andb_false_r. simpl. lia.
+  - simpl. unfold err_is. cbn [fst snd]. rewrite andb_false_r. simpl. lia.
 Qed.
 
 Lemma sends_snoc h e a s : sends_with_serial (h ++ [e]) a s = (sends_with_serial h a s + (if is_send_as a s e then 1 else 0))%nat.
@@ -1265,20 +1296,19 @@ Proof.
 Qed.
 
 Theorem errors_bounded cf h a s :
-  plain h = true ->
   (errors_in (trace_of cf h) a s + count_gs a s (st_pend (state_of cf h)) <= sends_with_serial h a s)%nat.
 Proof.
-  induction h as [|e h IH] using rev_ind; intros Hp.
+  induction h as [|e h IH] using rev_ind.
   - simpl. unfold errors_in, count_gs. simpl. lia.
-  - rewrite plain_app in Hp. apply andb_true_iff in Hp. destruct Hp as [Hp He]. simpl in He. rewrite andb_true_r in He.
-    specialize (IH Hp). unfold trace_of, state_of. rewrite run_snoc. cbn [fst snd]. fold (trace_of cf h).
-    rewrite errors_cons, sends_snoc. pose proof (errors_step cf (state_of cf h) e a s He). lia.
+  - unfold trace_of, state_of. rewrite run_snoc. cbn [fst snd]. fold (trace_of cf h).
+    rewrite errors_cons, sends_snoc. pose proof (errors_step cf (state_of cf h) e a s). lia.
 Qed.
 
+(* C05: an undeliverable call earns exactly one error: if a wrote one message with serial s, at most one error with that
+   reply serial ever reaches a -- every history (holds since the fix for F7) *)
 Theorem one_error_per_serial cf h a s :
-  plain h = true -> sends_with_serial h a s = 1%nat -> (errors_in (trace_of cf h) a s <= 1)%nat.
-Proof. intros Hp H1. pose proof (errors_bounded cf h a s Hp). lia. Qed.
-
+  sends_with_serial h a s = 1%nat -> (errors_in (trace_of cf h) a s <= 1)%nat.
+Proof. intros H1. pose proof (errors_bounded cf h a s). lia. Qed.
 (* ------------------------------------------------------------------ C05: copies made for match rules *)
 Lemma existsb_eqb_in o seen : existsb (N.eqb o) seen = true <-> In o seen.
 Proof.
